@@ -6,7 +6,8 @@
 //!
 //! * **tamper**: every certificate of an explicit grammar x every single-field change from per-field
 //!   alphabets: the hash must change when the changed field is one the certificate hash is documented
-//!   to cover (sub-unit changes of `phi_f` are evaluated but nothing is required of them);
+//!   to cover (sub-unit changes of `phi_f` are evaluated but nothing is required of them); plus, for both
+//!   timestamps, chrono's leap-second representation hh:mm:60.fff against the following second;
 //! * **pm**: every protocol message over small key subsets and an honest value alphabet, bucketed by
 //!   digest: two different messages never share a digest;
 //! * **wire**: every grammar certificate (and every certificate of a really signed chain, plus single
@@ -457,6 +458,47 @@ fn time_changes(d: &DateTime<Utc>) -> Vec<(String, DateTime<Utc>)> {
     out
 }
 
+/// Pairs (hh:mm:60.fff, hh:(mm+1):00.fff): chrono's leap-second representation (second 59 with a
+/// nanosecond field >= 1e9; accepted and written back as "hh:mm:60.fff" on *any* minute) and the plain
+/// following second with the same sub-second part. The two are different `DateTime<Utc>` values with
+/// different JSON texts, both survive the wire unchanged, and both are 64-bit-nanosecond representable.
+fn leap_pairs() -> Vec<(DateTime<Utc>, DateTime<Utc>)> {
+    let mk = |y: i32, mo: u32, d: u32, h: u32, mi: u32, frac: u32| {
+        let day = NaiveDate::from_ymd_opt(y, mo, d).unwrap();
+        let a = day.and_hms_nano_opt(h, mi, 59, 1_000_000_000 + frac).unwrap().and_utc();
+        let b = (day.and_hms_nano_opt(h, mi, 59, frac).unwrap() + TimeDelta::seconds(1)).and_utc();
+        (a, b)
+    };
+    vec![
+        mk(2016, 12, 31, 23, 59, 500_000_000), // a real leap second: 23:59:60.5 / 00:00:00.5 next day
+        mk(2024, 2, 12, 13, 11, 250_000_000),  // an ordinary minute: 13:11:60.25 / 13:12:00.25
+        mk(1970, 1, 1, 0, 0, 0),               // no sub-second part: 00:00:60 / 00:01:00
+        mk(2006, 1, 2, 15, 4, 999_999_999),    // 15:04:60.999999999 / 15:05:00.999999999
+        mk(2262, 4, 11, 23, 46, 1),            // last representable minute: 23:46:60.000000001 / 23:47:00.000000001
+    ]
+}
+
+/// the pairs above really are what the class needs (distinct values, distinct JSON, read back unchanged)
+fn leap_pairs_self_check(rep: &mut Report) {
+    for (a, b) in leap_pairs() {
+        let (ta, tb) = (serde_json::to_string(&a).unwrap(), serde_json::to_string(&b).unwrap());
+        let back_a: Result<DateTime<Utc>, _> = serde_json::from_str(&ta);
+        let back_b: Result<DateTime<Utc>, _> = serde_json::from_str(&tb);
+        let ok = a != b
+            && ta != tb
+            && ta.contains(":60")
+            && a.timestamp_subsec_nanos() >= 1_000_000_000
+            && b.timestamp_subsec_nanos() < 1_000_000_000
+            && matches!(&back_a, Ok(x) if *x == a && x.timestamp_subsec_nanos() == a.timestamp_subsec_nanos())
+            && matches!(&back_b, Ok(x) if *x == b)
+            && ref_nanos(&a).is_some()
+            && ref_nanos(&b).is_some();
+        if !ok {
+            rep.machinery_error(format!("leap-second pair self-check failed for {ta} / {tb}"));
+        }
+    }
+}
+
 /// phi_f as a count of 2^-24 units under the four usual rounding conventions (scaling by 2^24 is exact)
 fn fixed_views(x: f64) -> [f64; 4] {
     let y = x * 16777216.0;
@@ -694,6 +736,42 @@ fn tamper_one(spec: Spec, mat: &Material) -> Report {
             rep.outcome("tamper:phi-change-below-precision:hash-unchanged");
         }
     });
+    // leap-second representation against the following second, for both timestamps, on several minutes
+    for field in ["metadata.initiated_at", "metadata.sealed_at"] {
+        for (a, b) in leap_pairs() {
+            let (mut ca, mut cb) = (base.clone(), base.clone());
+            if field == "metadata.initiated_at" {
+                ca.metadata.initiated_at = a;
+                cb.metadata.initiated_at = b;
+            } else {
+                ca.metadata.sealed_at = a;
+                cb.metadata.sealed_at = b;
+            }
+            rep.eval();
+            let (Some(ha), Some(hb)) = (compute_hash(&ca), compute_hash(&cb)) else {
+                rep.outcome("tamper:hash-not-computable");
+                continue;
+            };
+            let (ta, tb) = (serde_json::to_string(&a).unwrap(), serde_json::to_string(&b).unwrap());
+            rep.nontrivial(&("tamper-leap", spec, field, &ta));
+            if ha != hb {
+                rep.outcome("tamper:leap-second:hash-changed");
+            } else {
+                rep.outcome("tamper:leap-second:HASH-UNCHANGED");
+                rep.violation(
+                    "C04/hash-unchanged:metadata.timestamp-leap-second",
+                    format!(
+                        "two certificates that differ only in {field} = {ta} (leap-second representation, nanosecond field {}) versus {tb} (the following second) have the same hash {ha}: \
+                         both values give the same timestamp_nanos_opt() = {:?}; base certificate spec {:?}",
+                        a.timestamp_subsec_nanos(),
+                        ref_nanos(&a),
+                        spec
+                    ),
+                    json!({"part": "tamper", "spec": spec.to_json(), "field": field, "change": format!("{ta} vs {tb}")}),
+                );
+            }
+        }
+    }
     rep
 }
 
@@ -1282,8 +1360,9 @@ pub fn run(ctx: &Ctx) -> ! {
     );
     rep.max_samples = 8;
     let mat = build_material();
+    leap_pairs_self_check(&mut rep);
     rep.assume("ancillary prover/verifier data cannot be present in this build: without the cargo feature future_snark both types are enums without variants, so only 'absent' is enumerated");
-    rep.assume("timestamps are compared as 64-bit nanosecond counts (a leap-second representation equals the instant it denotes)");
+    rep.assume("in the +-ns / +-s / +ms alphabets a timestamp change counts when the 64-bit nanosecond count differs; the one class of distinct DateTime values with the same count - a leap-second representation hh:mm:60.fff against the following second - is enumerated separately under its own key");
     rep.assume("a change of phi_f is required to change the hash only when it is a whole unit of U8F24 (2^-24) or more and shows as a different 24-bit fraction under floor, ceiling, half-away and half-even rounding alike (two exact rounding ties one unit apart coincide under half-even); smaller changes are evaluated and reported as observations");
     rep.assume("re-serialisations that write integers as 5.0 / 5e0 are followed only where serde accepts them; string escaping variants and alternative key codecs are not demanded by the property (the latter are reported as observations)");
     rep.assume("honest protocol-message values are hex strings and decimal numbers; values that spell key names are outside the property (one such collision is shown as a detector self-test)");
